@@ -146,7 +146,8 @@ def strat_distinct(tier):
 def strat_random_seq(tier):
     def seqs(high):
         top = min(high, 300)
-        return st.lists(st.one_of(st.integers(0, min(top, 12)), st.integers(0, top)), min_size=1, max_size=12)
+        far = min(high, 3000)        # long jumps: more than 1024 values drawn by one request
+        return st.lists(st.one_of(st.integers(0, min(top, 12)), st.integers(0, top), st.integers(0, top), st.integers(min(far, 1000), far)), min_size=1, max_size=12)
     highs = st.one_of(st.integers(7, 64), st.sampled_from([2 ** 31, 2 ** 32, 1000]))
     return highs.flatmap(lambda h: st.fixed_dictionaries({
         'seed': st.integers(0, 2 ** 32 - 1), 'high': st.just(h), 'seq': seqs(h)}))
@@ -154,7 +155,7 @@ def strat_random_seq(tier):
 
 def strat_callsites(tier):
     seeds = st.one_of(st.sampled_from([0, 1, 5, 123456]), st.integers(0, 2 ** 32 - 1))
-    idx = st.one_of(st.integers(0, 6), st.integers(0, 400))
+    idx = st.one_of(st.integers(0, 6), st.integers(0, 400), st.integers(0, 400), st.integers(1000, 3000))
     return st.fixed_dictionaries({
         'seeds': st.lists(seeds, min_size=1, max_size=3),
         'calls': st.lists(st.tuples(st.integers(0, 2), idx), min_size=1, max_size=14),
@@ -226,7 +227,7 @@ CHECK = Check(
           '(thorough), one shared cache per sequence, compared step by step with the uncached call and with the '
           'reference (i+1)-th distinct value of the one-at-a-time randint stream; random-sequences / distinct: '
           'Hypothesis-generated seeds over uint32, high in {7..64, 1000, 2^16, 2^31, 2^32}, sequences up to 12 indices '
-          'up to 300. Non-trivial = the sequence repeats or decreases an index AND the underlying stream contained at '
+          'up to 300 plus long jumps (indices 1000-3000). Non-trivial = the sequence repeats or decreases an index AND the underlying stream contained at '
           'least one duplicate draw before the largest index was served (distinct cases counted by hash). call-sites: '
           'histories of (generator seed, index) requests through prepare_seed (external operations) and through '
           'RandomStateLoader on used vs fresh contexts; non-trivial = >=3 calls interleaving >=2 seeds with a '
